@@ -110,8 +110,12 @@ def run(cmd, cwd=None, env=None, timeout=None, check=False):
     return p.returncode, p.stdout
 
 
-def build_harness():
-    """zv mounts /repo/src by #[path]: cargo rebuilds it whenever the working tree changed."""
+ZV_CAP1 = os.path.join(BUILD, "harness_cap1", "debug", "zv")
+
+
+def build_harness(cap=None):
+    """zv mounts /repo/src by #[path]: cargo rebuilds it whenever the working tree changed.
+    cap=1 builds the variant whose DEFAULT_CHANNEL_CAP (actor inbox capacity) is 1, into its own target directory."""
     with Lock("cargo-harness"):
         t0 = time.time()
         import shutil
@@ -131,8 +135,12 @@ def build_harness():
             text = open(cfgp).read().replace('"../.build/harness"', '"%s"' % os.path.join(BUILD, "harness"))
             open(cfgp, "w").write(text)
             hdir = alt
-        rc, out = run(["cargo", "build", "--offline"], cwd=hdir,
-                      env={"CARGO_NET_OFFLINE": "true"}, timeout=1500)
+        cmd = ["cargo", "build", "--offline"]
+        env = {"CARGO_NET_OFFLINE": "true"}
+        if cap:
+            cmd += ["--target-dir", os.path.join(BUILD, "harness_cap%d" % cap)]
+            env["ZV_CAP"] = str(cap)
+        rc, out = run(cmd, cwd=hdir, env=env, timeout=1500)
         if rc != 0:
             raise ToolError("harness build failed:\n" + out[-4000:])
         log("harness built in %.0fs" % (time.time() - t0))
